@@ -56,7 +56,7 @@ TRUNC_TOL = 1e-6         # reported truncation_error (a square root of a round-o
 
 def plan(tier):
     if tier == "thorough":
-        return {"cases": 2400, "shards": 16, "budget_s": 2400}      # nominal ~6 min wall; soft deadline generous (shared machine)
+        return {"cases": 1600, "shards": 16, "budget_s": 2400}      # nominal ~4-5 min wall; soft deadline generous (shared machine)
     return {"cases": 156, "shards": 8, "budget_s": 300}             # nominal ~25 s wall
 
 
